@@ -55,7 +55,7 @@ impl Scenario for C18 {
 
     fn runs(&self, tier: Tier) -> u64 {
         match tier {
-            Tier::Quick => 10_000,
+            Tier::Quick => 120_000,
             Tier::Thorough => 5_000_000,
         }
     }
